@@ -181,7 +181,7 @@ fn sorter_case(ctx: &Ctx, stream: &str, idx: u64, rng: &mut Rng, splits: &[Split
     let mut scfg = gen_scfg(rng);
     scfg.parallel = false;
     scfg.stable = true;
-    let kind = *rng.pick(&[MergeKind::Concat, MergeKind::Last, MergeKind::Min]);
+    let kind = *rng.pick(&[MergeKind::Concat, MergeKind::Last, MergeKind::Min, MergeKind::KeyedMinMax]);
     let uni = *rng.pick(&[2usize, 20, 300]);
     let plan = gen_inserts_capped(rng, rng.clone().range(0, 1500), uni, 40, false, None, scfg.budget * 12);
     let out_cfg = gen::gen_cfg(rng, true);
